@@ -348,6 +348,7 @@ type gen struct {
 	dead   []int // ids that are no longer valid
 	bad    bool
 	nlog   int64
+	dust   *[nAddrs]int64      // malformed stream: sub-unibi credits so far (Nibiru drops the dust at every commit, the shadow does not)
 	sender int                 // tx sender (-1 in the funding tx): its nonce is managed by the nonce bracket only
 	base   [nAddrs][nKeys]bool // slot non-zero at tx start
 }
@@ -397,9 +398,19 @@ func (g *gen) read() {
 
 func (g *gen) balance(a int) int64 { return bigID(g.db.GetBalance(g.u.addr(a))) }
 
+// spendable is a lower bound (in unibi) of what both implementations hold for a: the shadow
+// balance minus one unibi per fractional credit ever made to a (no overdraft on either side)
+func (g *gen) spendable(a int) int64 {
+	b := g.balance(a)/wei - g.dust[a]
+	if b < 0 {
+		return 0
+	}
+	return b
+}
+
 func (g *gen) transfer() {
 	from, to := g.anyAddr(), g.anyAddr()
-	bal := g.balance(from) / wei
+	bal := g.spendable(from)
 	if bal <= 0 {
 		g.emit(c03Op{K: "add", A: to, V: 0}) // a zero-value touch
 		return
@@ -449,7 +460,7 @@ func (g *gen) create(depth int) {
 	// still shares the balance of a pre-funded previous object)
 	if g.r.Chance(3, 4) {
 		from := g.anyAddr()
-		if bal := g.balance(from) / wei; from != a && bal > 0 {
+		if bal := g.spendable(from); from != a && bal > 0 {
 			amt := int64(g.r.Range(1, int(min64(bal, 40)))) * wei
 			g.emit(c03Op{K: "sub", A: from, V: amt})
 			g.emit(c03Op{K: "add", A: a, V: amt})
@@ -458,7 +469,7 @@ func (g *gen) create(depth int) {
 	if g.r.Chance(1, 3) {
 		// the init code sends value on
 		to := g.anyAddr()
-		if bal := g.balance(a) / wei; to != a && bal > 0 {
+		if bal := g.spendable(a); to != a && bal > 0 {
 			amt := int64(g.r.Range(1, int(min64(bal, 20)))) * wei
 			g.emit(c03Op{K: "sub", A: a, V: amt})
 			g.emit(c03Op{K: "add", A: to, V: amt})
@@ -507,6 +518,9 @@ func (g *gen) selfdestruct() {
 	b := g.anyAddr()
 	g.emit(c03Op{K: "bal", A: a})
 	bal := g.balance(a)
+	if bal%wei != 0 {
+		g.dust[b]++
+	}
 	g.emit(c03Op{K: "add", A: b, V: bal})
 	g.emit(c03Op{K: "suicide", A: a})
 }
@@ -670,7 +684,9 @@ func (g *gen) malformed() {
 	case 2: // refund underflow
 		g.emit(c03Op{K: "subrefund", V: int64(g.db.GetRefund()) + int64(g.r.Range(1, 5))})
 	case 3: // fractions of a unibi
-		g.emit(c03Op{K: "add", A: g.anyAddr(), V: int64(g.r.Range(1, 999_999)) * 1_000_000})
+		a := g.anyAddr()
+		g.dust[a]++
+		g.emit(c03Op{K: "add", A: a, V: int64(g.r.Range(1, 999_999)) * 1_000_000})
 	case 4: // self-destruct of anything
 		g.emit(c03Op{K: "suicide", A: g.anyAddr()})
 	case 5: // access list preparation in the middle
@@ -680,8 +696,8 @@ func (g *gen) malformed() {
 }
 
 // genTx produces one transaction on the shadow state.
-func genTx(r *Rng, u universe, shadow *gethSide, first, bad bool) []c03Op {
-	g := &gen{r: r, u: u, db: shadow.open(), bad: bad, sender: -1}
+func genTx(r *Rng, u universe, shadow *gethSide, first, bad bool, dust *[nAddrs]int64) []c03Op {
+	g := &gen{r: r, u: u, db: shadow.open(), bad: bad, sender: -1, dust: dust}
 	for a := 0; a < nAddrs; a++ {
 		for k := 0; k < nKeys; k++ {
 			g.base[a][k] = g.db.GetState(u.addr(a), keyOf(k)) != (gethcommon.Hash{})
@@ -739,9 +755,10 @@ func genCase(r *Rng, bad bool) [][]c03Op {
 	u := universe{ns: 0xffffffff}
 	shadow := newGethSide()
 	var txs [][]c03Op
+	var dust [nAddrs]int64
 	n := r.Range(2, 4)
 	for i := 0; i < n; i++ {
-		txs = append(txs, genTx(r, u, shadow, i == 0, bad && i > 0))
+		txs = append(txs, genTx(r, u, shadow, i == 0, bad && i > 0, &dust))
 	}
 	return txs
 }
